@@ -62,7 +62,9 @@ Proof. exact make_cache_lab_length. Qed.
 Print Assumptions C07_labels_total.
 
 (* Derived tables (t + t, t + t.rows[..], t * k, _copy, rows[..], cols[..],
-   Table.concatenate, _t) are new objects without a row-name cache: on the
+   Table.concatenate, _t) are new objects without a row-name cache, and the
+   in-place changes of which column is the index (t._index = other column;
+   index column deleted and assigned again) drop the cache: on the
    table reached by any history of updates, lookups and derivations (lookups
    on the source BEFORE deriving included), a lookup resolves against that
    table's own current index column — nothing of the source's cache survives. *)
@@ -93,6 +95,17 @@ Example C07_derived_nonvacuous :
      RUnit; RPos 1].
 Proof. vm_compute. reflexivity. Qed.
 Print Assumptions C07_derived_nonvacuous.
+
+(* re-pointing the index: look up, t._index = 'alt' (column 8 holds the names
+   2,2,3 as integers), look up on the new index column, point back, look up *)
+Example C07_repoint_nonvacuous :
+  let t0 := mkTable [1; 2; 1]%N [(8%N, [2; 2; 3])] None in
+  drun t0 [DOp (OGetIndex (RStr 1%N 1%N (Some 1) 0)); DRepoint 8%N 7%N; DOp (OGetIndex (RTup2 2%N 1));
+           DOp (OGetIndex (RStr 3%N 3%N None 0)); DOp (OGetIndex (RStr 1%N 1%N None 0));
+           DRepoint 7%N 8%N; DOp (OGetIndex (RTup2 1%N (-1)))]
+  = [RPos 2; RUnit; RPos 1; RPos 2; RErr KeyError; RUnit; RPos 2].
+Proof. vm_compute. reflexivity. Qed.
+Print Assumptions C07_repoint_nonvacuous.
 
 (* non-vacuity: a table with repeated names, a history that renames a row by
    cell assignment and replaces the column, meets the hypotheses *)
